@@ -49,9 +49,23 @@ bool FeatureChecker::visitTemplateBefore(template_t& templ)
     return templ.is_instantiated;
 }
 
+/** True if a value of the type is, or contains (as array element or record field), a clock. */
+static bool has_clock(type_t type)
+{
+    while (type.is_array())
+        type = type.get_sub();
+    if (type.is_record()) {
+        for (size_t i = 0; i < type.size(); ++i)
+            if (has_clock(type.get_sub(i)))
+                return true;
+        return false;
+    }
+    return type.is_clock();
+}
+
 void FeatureChecker::visitVariable(variable_t& var)
 {
-    if (var.uid.get_type().is_clock() && !var.init.empty() && var.init.uses_fp())
+    if (has_clock(var.uid.get_type()) && !var.init.empty() && var.init.uses_fp())
         supported_methods.symbolic = false;
 }
 
